@@ -20,7 +20,8 @@ func c02Opts(thorough bool) opCaseOpts {
 				out = append(out, s)
 			}
 		}
-		return opCaseOpts{shapes: out, maxIndexRank: 4, concatSizes: []int{1, 2, 3}, concat3: true}
+		out = append(out, []int{4}, []int{5}, []int{7}, []int{2, 4}, []int{5, 2}, []int{4, 4}, []int{2, 5, 3}, []int{33}, []int{6, 6}, []int{3, 8, 2}, []int{130})
+		return opCaseOpts{shapes: out, maxIndexRank: 4, concatSizes: []int{1, 2, 3}, concat3: true, bigIndexLimit: 64}
 	}
 	quick := enum.Shapes(3, []int{1, 2, 3})
 	for _, s := range enum.Shapes(4, []int{1, 2}) {
@@ -28,7 +29,9 @@ func c02Opts(thorough bool) opCaseOpts {
 			quick = append(quick, s)
 		}
 	}
-	return opCaseOpts{shapes: quick, maxIndexRank: 4, concatSizes: []int{1, 2}, concat3: true}
+	// dimension sizes beyond 3 (constants such as 2/(n-1), thresholds, block sizes)
+	quick = append(quick, []int{4}, []int{5}, []int{7}, []int{2, 4}, []int{5, 2}, []int{4, 4}, []int{2, 5, 3}, []int{33})
+	return opCaseOpts{shapes: quick, maxIndexRank: 4, concatSizes: []int{1, 2}, concat3: true, bigIndexLimit: 64}
 }
 
 func checkC02(c *core.Ctx) {
@@ -45,7 +48,10 @@ func checkC02(c *core.Ctx) {
 		n := len(oc.In)
 		for mask := 1; mask < 1<<n; mask++ {
 			for vi := 0; vi < 2; vi++ {
-				for wi := 0; wi < 2; wi++ {
+				for wi := 0; wi < 3; wi++ {
+					if wi == 2 && vi == 1 {
+						continue
+					}
 					mask, vi, wi := mask, vi, wi
 					id := fmt.Sprintf("%s|m%d|v%d|w%d", oc.ID(), mask, vi, wi)
 					c.Case(id, ref.Size(oc.In[0]) > 1, func() core.Verdict {
@@ -83,6 +89,19 @@ func c02Run(oc OpCase, in []*ref.T, mask int, wi int) core.Verdict {
 	root := len(in)
 	if wi == 1 {
 		p, root = withWeighting(p, root, 9)
+	} else if wi == 2 {
+		// an upstream weighting whose elements cancel exactly (sum == 0) without being zero
+		p, root = withWeighting(p, root, 9)
+		w := p.Leaves[len(p.Leaves)-1]
+		if len(w.V) < 2 {
+			return core.Skip()
+		}
+		for i := 0; i+1 < len(w.V); i += 2 {
+			w.V[i+1] = -w.V[i]
+		}
+		if len(w.V)%2 == 1 {
+			w.V[len(w.V)-1] = 0
+		}
 	}
 	v := gradCase(p, root, gradOpts{})
 	if !v.OK && !v.Skip {
